@@ -1283,6 +1283,8 @@ class EArray(Engine):
                 return {'skip': 'items do not re-encode (NaN payload / saturating code)'}
             if any(_isint(v) and self.dt.kind == 'bytes' for v in vals):
                 return {'skip': 'bytes(n)'}
+            if how == 'array' and list(encs) != list(self.items):
+                return {'skip': 'an item that does not re-encode to itself (e5m2 infinity under saturate): copying the data and re-encoding the values are both defensible'}
             src = {'list': lambda: list(vals), 'tuple': lambda: tuple(vals), 'gen': lambda: (v for v in vals),
                    'array': lambda: self.mk_array(key, ''.join(self.items))}[how]()
             want_items = list(encs)
